@@ -166,8 +166,8 @@ def listener_attachments(repo: Repo, doc_cls: str):
     Documenter class, in execution order (__init__ then process), with the role
     of X (lexer / parser)."""
     ci = repo.cls(doc_cls)
-    lex_attrs = roles.self_attr_assigned_from(ci.node, ("CMakeLexer",))
-    par_attrs = roles.self_attr_assigned_from(ci.node, ("CMakeParser",))
+    lex_attrs = roles.self_attr_assigned_from(ci.node, roles.recognizer_names(repo, "CMakeLexer"))
+    par_attrs = roles.self_attr_assigned_from(ci.node, roles.recognizer_names(repo, "CMakeParser"))
     if not lex_attrs or not par_attrs:
         raise AnalysisError("anchor vanished: Documenter does not keep its lexer/parser in attributes")
     events = []
@@ -616,6 +616,39 @@ def run(rep: Report, repo: Repo, tier: str) -> None:
     # ---- R13: the processing functions run in the caller's own call stack
     with rep.isolated():
         rule_direct_calls(rep, repo, "C06-R13")
+    # ---- R14: hand-written subclasses of the generated recognizers leave the error plumbing alone
+    with rep.isolated():
+        rule_recognizer_subclasses(rep, repo, "C06-R14")
+
+
+ERROR_PLUMBING = {"notifyErrorListeners", "getNumberOfSyntaxErrors", "getErrorListenerDispatch", "addErrorListener",
+                  "removeErrorListeners", "removeErrorListener", "recover", "reportError", "getErrorHeader"}
+
+
+def rule_recognizer_subclasses(rep: Report, repo: Repo, rule: str) -> None:
+    """The escalation argument rests on antlr4's own plumbing: Parser.notifyErrorListeners counts the error (_syntaxErrors) before
+    it dispatches to the listeners, and the count is what Documenter.process() checks after the parse.  A subclass of CMakeParser /
+    CMakeLexer that re-implements one of these methods without delegating to the inherited one can drop the count or the dispatch."""
+    rep.rule(rule, "a hand-written subclass of CMakeParser / CMakeLexer overrides none of the error-reporting methods of the runtime, "
+                   "or the override calls super().<same method>")
+    n = 0
+    for base in ("CMakeParser", "CMakeLexer"):
+        for cname in roles.recognizer_names(repo, base):
+            if cname == base:
+                continue
+            ci = repo.cls(cname)
+            n += 1
+            for mname, fn in ci.methods.items():
+                if mname not in ERROR_PLUMBING:
+                    continue
+                delegates = any(isinstance(c, ast.Call) and isinstance(c.func, ast.Attribute) and c.func.attr == mname
+                                and isinstance(c.func.value, ast.Call) and norm(c.func.value.func) == "super" for c in ast.walk(fn))
+                rep.check(delegates, rule, f"{ci.module}:{cname}.{mname}", f"override of {base}.{mname}",
+                          f"{cname} re-implements {mname}() without calling the inherited one: what the runtime does there (counting the "
+                          f"syntax error before dispatching it, keeping the listener list) is lost, so the 'number of syntax errors' "
+                          f"gate after the parse no longer sees errors that the rule-level recovery swallowed",
+                          witness="a bare word directly before a doccomment, or a trailing `endfunction` without parentheses")
+    rep.ok(rule, "cminx.*", f"{n} hand-written recognizer subclass(es)")
 
 
 def rule_direct_calls(rep: Report, repo: Repo, rule: str) -> None:
